@@ -993,6 +993,11 @@ func (self Value) FieldByName(name string) (v Value) {
 	}
 	for it.HasNext() {
 		i, wt, s, e, tagPos := it.Next(UseNativeSkipForGet)
+		if it.Err != nil {
+			// the span of a field that failed to read is not valid, even if its number matches
+			v = errValue(meta.ErrRead, "", it.Err)
+			goto ret
+		}
 		if i == f.Number() {
 			typDesc := f.Type()
 			if typDesc.IsMap() || typDesc.IsList() {
